@@ -36,6 +36,7 @@
      c12-sibling / c12-param-macro / c12-self-function   regressions of three defects found here and repaired in the
                   engine: a body calling a macro of its own template, a parameter named like a visible macro, a macro
                   named like a registered function reached through _self
+     known:default-calls-sibling-macro   a default expression that calls a macro of its own template (known finding)
      known:macro-call-as-operand   the same call in print position and as an operand (known finding: never rendered) *)
 open Util
 module M = Model
@@ -432,9 +433,10 @@ let regression_stream oc =
     [ "max"; "min"; "spyfn" ]
 
 (* ---------------------------------------------------------------- a default that calls a macro of its own template *)
-(* NOT part of run: defaults are evaluated in the caller's context, which holds the library's macros only in the defining
-   template, so such a call fails through import / from (reported with notes/proposed-fixes/C12-default-calls-sibling-macro.patch).
-   Enable as a regression stream (known = "") once the engine is repaired, or as a known class once it is listed. *)
+(* defaults are evaluated in the caller's context, which holds the library's macros only in the defining template, so
+   such a call fails through import / from (known finding default-calls-sibling-macro, Properties/C12.v
+   C12_default_sibling_refuted; notes/proposed-fixes/C12-default-calls-sibling-macro.patch). With known = "" this is a
+   regression stream, for when the engine is repaired. *)
 let default_sibling_stream oc ~(known : string) =
   let helper = macro "h" [ ("a", None) ] [ text "<h"; pv "a"; text ">" ] in
   List.iter (fun site ->
@@ -534,5 +536,6 @@ let run ~seed ~tier oc =
   global_stream oc;
   isolated_stream oc;
   regression_stream oc;
+  default_sibling_stream oc ~known:"default-calls-sibling-macro";
   operand_stream oc;
   decl_stream oc
